@@ -127,6 +127,48 @@ func abortedHash(mod *big.Int, arity int) {
 }
 
 func init() {
+	// mixed-field sessions: one process evaluates the gadget over several fields, interleaved (a test binary or tool that builds circuits for
+	// more than one curve).  What Poseidon computes over one field must not depend on which field the process touched first.
+	commands["c05-mixed"] = func(args []string) {
+		var cs struct {
+			Groups []c05Cases `json:"groups"`
+		}
+		loadCases(args, &cs)
+		most := 0
+		for _, g := range cs.Groups {
+			if len(g.Sessions) > most {
+				most = len(g.Sessions)
+			}
+		}
+		for si := 0; si < most; si++ {
+			for gi, g := range cs.Groups {
+				if si >= len(g.Sessions) {
+					continue
+				}
+				mod := bigOf(g.P)
+				sess := g.Sessions[si]
+				exp := make([]*big.Int, len(sess))
+				for i, c := range sess {
+					exp[i] = c.Out.big()
+				}
+				r := Result{ID: fmt.Sprintf("mixed/group%d/%s/p=%s/session%d", gi, g.Mode, g.P, si), OK: true, Kind: "poseidon-mixed-fields"}
+				err := engineSolved(posShape(sess), posAssign(sess, exp), mod)
+				if err == nil && g.R1CS && si < 2 {
+					ccs, cerr := compileR1CS(mod, posShape(sess))
+					if err = cerr; err == nil {
+						err = r1csSolved(ccs, posAssign(sess, exp), mod)
+					}
+				}
+				if err != nil {
+					first := cs.Groups[0]
+					r.OK = false
+					r.Detail = fmt.Sprintf("in a process that first evaluated Poseidon over p=%s, the gadget over p=%s rejects the spec's outputs: %s", first.P, g.P, firstLine(err.Error()))
+					r.Case = map[string]interface{}{"groups": cs.Groups}
+				}
+				emit(r)
+			}
+		}
+	}
 	commands["c05"] = func(args []string) {
 		var cs c05Cases
 		loadCases(args, &cs)
